@@ -8,25 +8,25 @@ use wasm_encoder as we;
 use we::Instruction as I;
 
 #[derive(Clone, Copy, PartialEq, Debug)]
-enum T { I32, I64 }
-fn vt(t: T) -> we::ValType { match t { T::I32 => we::ValType::I32, T::I64 => we::ValType::I64 } }
-fn coq_vt(t: T) -> &'static str { match t { T::I32 => "VT_I32", T::I64 => "VT_I64" } }
+pub(crate) enum T { I32, I64 }
+pub(crate) fn vt(t: T) -> we::ValType { match t { T::I32 => we::ValType::I32, T::I64 => we::ValType::I64 } }
+pub(crate) fn coq_vt(t: T) -> &'static str { match t { T::I32 => "VT_I32", T::I64 => "VT_I64" } }
 
 /// function types available as block types (index = position); 0 is reserved for the function itself
-fn block_types() -> Vec<(Vec<T>, Vec<T>)> {
+pub(crate) fn block_types() -> Vec<(Vec<T>, Vec<T>)> {
     vec![(vec![T::I32], vec![T::I32]), (vec![T::I32, T::I32], vec![T::I32]), (vec![], vec![T::I32, T::I64]), (vec![T::I64], vec![T::I32]), (vec![T::I32], vec![])]
 }
 
-struct G<'a> { r: &'a mut Rng, params: Vec<T>, locals: Vec<T>, n_counters: usize, counters_used: usize, results: Vec<T>, btys: Vec<(Vec<T>, Vec<T>)>, budget: usize, dead_ops: usize, n_loops: usize, n_br: usize, ext: bool, n_mem: usize, sabotage_at: Option<usize>, sabotaged: Option<&'static str>,
+pub(crate) struct G<'a> { pub(crate) r: &'a mut Rng, pub(crate) params: Vec<T>, pub(crate) locals: Vec<T>, pub(crate) n_counters: usize, pub(crate) counters_used: usize, pub(crate) results: Vec<T>, pub(crate) btys: Vec<(Vec<T>, Vec<T>)>, pub(crate) budget: usize, pub(crate) dead_ops: usize, pub(crate) n_loops: usize, pub(crate) n_br: usize, pub(crate) ext: bool, pub(crate) n_mem: usize, pub(crate) sabotage_at: Option<usize>, pub(crate) sabotaged: Option<&'static str>,
     /// index of the first block type in the type section; functions that may be called (index, params, results); signatures for call_indirect (type index = position); table length
-    bt_base: u32, callees: Vec<(u32, Vec<T>, Vec<T>)>, sigs: Vec<(Vec<T>, Vec<T>)>, table_len: u32, n_calls: usize, self_idx: Option<u32>,
+    pub(crate) bt_base: u32, pub(crate) callees: Vec<(u32, Vec<T>, Vec<T>)>, pub(crate) sigs: Vec<(Vec<T>, Vec<T>)>, pub(crate) table_len: u32, pub(crate) n_calls: usize, pub(crate) self_idx: Option<u32>,
     /// for every table slot: the type index of the function stored there (callable lower-numbered functions only), for mostly-matching call_indirect
-    slot_types: Vec<Option<usize>> }
+    pub(crate) slot_types: Vec<Option<usize>> }
 #[derive(Clone)]
-struct Label { tys: Vec<T>, is_loop: bool }
+pub(crate) struct Label { pub(crate) tys: Vec<T>, pub(crate) is_loop: bool }
 
 /// one generated instruction: wasm + Coq text
-struct Out { w: Vec<I<'static>>, c: Vec<String> }
+pub(crate) struct Out { pub(crate) w: Vec<I<'static>>, pub(crate) c: Vec<String> }
 impl Out { fn new() -> Out { Out { w: vec![], c: vec![] } }
     fn op(&mut self, i: I<'static>, c: &str) { self.w.push(i); self.c.push(format!("RPlain ({}) 0", c)); } }
 
@@ -80,7 +80,7 @@ impl<'a> G<'a> {
             _ => { o.op(I::I32Const(1), "W_I32Const (1)%Z"); o.op(I::I32Const(0), "W_I32Const (0)%Z"); o.op(I::I32DivU, "W_I32DivU"); o.op(I::Drop, "W_Drop"); } } }
     }
     /// a sequence transforming the block-local stack `st0` into `want`; labels: innermost LAST
-    fn seq(&mut self, labels: &mut Vec<Label>, st0: Vec<T>, want: &[T], depth: usize) -> Out {
+    pub(crate) fn seq(&mut self, labels: &mut Vec<Label>, st0: Vec<T>, want: &[T], depth: usize) -> Out {
         let mut o = Out::new(); let mut st = st0;
         let n = 1 + self.r.usize(6);
         for _ in 0..n {
